@@ -64,7 +64,11 @@ func (gj *groupJob[T]) Close() error {
 	}
 
 	gj.ack()
-	gj.changeStatus(closed)
+
+	if err := gj.closeStatus(); err != nil {
+		return err
+	}
+
 	gj.wgc.Done()
 
 	return nil
@@ -135,7 +139,11 @@ func (gj *resultGroupJob[T, R]) Close() error {
 	}
 
 	gj.ack()
-	gj.changeStatus(closed)
+
+	if err := gj.closeStatus(); err != nil {
+		return err
+	}
+
 	// only the call that brings the counter to zero closes the shared stream
 	if gj.wgc.Done() {
 		gj.Response.Close()
@@ -212,7 +220,11 @@ func (gj *errorGroupJob[T]) Close() error {
 	}
 
 	gj.ack()
-	gj.changeStatus(closed)
+
+	if err := gj.closeStatus(); err != nil {
+		return err
+	}
+
 	// only the call that brings the counter to zero closes the shared stream
 	if gj.wgc.Done() {
 		gj.Response.Close()
